@@ -1,0 +1,14 @@
+//go:build verif
+
+package allegra
+
+// Contracts for /verif (contract-based deductive verification). Comment-only.
+
+// C26: validity interval. 0 is the repository's representation of an absent bound.
+//@ func UtxoValidateOutsideValidityIntervalUtxo(tx, slot, ls, pp) (err)
+//@   props C26
+//@   let start = tx.ValidityIntervalStart()
+//@   let ttl = tx.TTL()
+//@   ensures lower: err == nil ==> start == 0 || slot >= start
+//@   ensures upper: err == nil ==> ttl == 0 || slot < ttl
+//@   cover accepts: err == nil && start != 0 && ttl != 0
